@@ -6,6 +6,7 @@ every app program, every world and every fuel: if the call returns (`= some …`
 then the postcondition holds.  The loops are proved against an ARBITRARY lower layer (`rt`, `settle`): whatever
 polling a task does, the loop cannot return with work left in its queues.
 -/
+import CruxVerif.Lemmas.CompleteS
 import CruxVerif.Lemmas.RtCore
 import CruxVerif.Lemmas.RtTask
 import CruxVerif.Lemmas.QHosts
@@ -109,5 +110,44 @@ def C01_nested_quiescent_goal : Prop :=
 example : ∃ effs k', processEvent ⟨1, 0⟩ { prog := [(1, .notify 7 (.lit 3), [])] } = some (effs, k') ∧ effs.length = 1 := by
   refine ⟨_, _, rfl, ?_⟩
   decide
+
+/-- **QUIESCENT AND NOTHING LOST, under the direct host, over whole runs** (simpleS task programs: emit, notify, request,
+    stream, spawn, join, select, self-wake in any nesting). After EVERY history of resolutions, drops and polls, when the
+    observation (`effects()` / `events()` / `is_done()`) has returned: nothing is left to run — the ready queue is empty — and
+    no wake-up can be lost — every task still stored has its OWN waker registered in a channel whose sender the shell still
+    holds, so the resolve or drop of that very request wakes that very task (`M.Rt.take_wake_stale`). Invariants `GInv`, `LQ`
+    and the bundle `CS` of C07 (Lemmas/CompleteS.lean). -/
+theorem direct_observation_quiescent_and_armed (is : List Instr) (hf : hostFreeIs is = true) (hs : simpleSIs is = true)
+    (canon : Bool) (acts : List M.Hosts.Action) (os : List M.Hosts.Obs) (d : M.Hosts.Direct)
+    (h : M.Hosts.runDirect (.task is) canon acts = some (os, d)) :
+    (d.w.cmd d.cid).ready = [] ∧
+    ∀ tid t, (d.w.cmd d.cid).tasks.get? tid = some t →
+      ∃ l s, l < d.w.leaves.length ∧ (d.w.leaf l).waker = some (.task d.cid tid s) ∧
+        ((d.w.leaf l).senderAlive = true ∨ (d.w.leaf l).legacy = true) := by
+  obtain ⟨cs, hr⟩ := M.Hosts.runDirect_cs is hf hs canon acts os d h
+  have gl := M.Hosts.runDirect_gl is hf canon acts os d h
+  refine ⟨hr, ?_⟩
+  intro tid t hg
+  have held : ∃ l s, (d.w.leaf l).waker = some (.task d.cid tid s) := by
+    cases hgo : goneOnlyB t.fut with
+    | false =>
+      rcases gl.1.gp tid t hg (fun e => by cases e) with h1 | h1 | ⟨s, h1⟩
+      · rw [hr] at h1; cases h1
+      · rw [cs.na.getMeta] at h1; cases h1
+      · obtain ⟨l, _, hl⟩ := live_point_of_parked _ d.w t.fut h1 hgo
+        exact ⟨l, s, hl⟩
+    | true =>
+      have dead := deadOnly_of_goneOnly_s t.fut (cs.sp.t t (M.Slab.mem_values_of_get _ _ _ hg)) hgo
+      rcases cs.nd tid t hg (fun e => by cases e) dead with h1 | h1
+      · rw [hr] at h1; cases h1
+      · exact h1
+  obtain ⟨l, s, hl⟩ := held
+  exact ⟨l, s, leaf_some_lt hl, hl, gl.2 l _ hl⟩
+
+/-- … and taking that waker wakes that task: after the shell drops (or resolves) the request of channel `l0`, a task that
+    was held by a channel is still held by one or is on the ready queue -/
+theorem taking_a_waker_wakes_its_task (w : World) (l0 c tid : Nat) (hal : (w.cmd c).alive = true) (hin : c < w.cmds.length)
+    (h : StaleW c tid w) : StaleW c tid (w.dropSender l0) ∨ tid ∈ ((w.dropSender l0).cmd c).ready :=
+  dropSender_stale w l0 c tid hal hin (Or.inl h)
 
 end Props.C01
